@@ -724,6 +724,39 @@ theorem c04_storage_sequence (d : Deployment) (hd : d.issuer ≠ []) (l : List L
       rw [this, hr]
       rfl
 
+/-! ### round 5: requests in flight at the same time -/
+
+/-- one request being processed: the consumer it reached, that request's own context (clock, lookup /
+client / logged-in user, …) and the artefact it carries -/
+structure Request where
+  c : Consumer
+  x : Ctx
+  a : Artefact
+
+/-- The consumers keep nothing between calls and share nothing across calls but the deployment: a batch
+of requests processed at the same time — in whatever interleaving — is decided request by request. -/
+def inFlight (l : List Request) : List Bool := l.map (fun r => accepts r.c r.x r.a)
+
+/-- **Overlapping requests.** Whatever else is being processed at the same time (the same bytes at
+another consumer included), every request of the batch that is honoured carries an artefact that is, for
+*that* consumer and at *that* request's time, signed by the deployment, of the consumer's kind, inside its
+window, naming this server and bound to the request. -/
+theorem c04_overlap (l : List Request) (i : Nat) (r : Request) (hr : l[i]? = some r) (hs : Sane r.x)
+    (h : (inFlight l)[i]? = some true) : honourable r.c r.x r.a = true := by
+  simp only [inFlight, List.getElem?_map, hr, Option.map_some, Option.some.injEq] at h
+  exact c04_sound r.c r.x r.a hs h
+
+/-- **The same bytes at two consumers.** An artefact minted as kind `k` that is in flight at any number
+of consumers at once is refused by each of them whose purpose is another kind — also while a consumer of
+kind `k` is honouring the very same bytes. -/
+theorem c04_overlap_same_token (k : Kind) (w : Wire) (hm : Minted k w) (alg sigAlg : Alg) (signedBy : Option Nat)
+    (l : List Request) (i : Nat) (r : Request) (hr : l[i]? = some r)
+    (ha : r.a = { claims := w, alg := alg, signedBy := signedBy, sigAlg := sigAlg }) (hk : r.c.purpose ≠ k) :
+    (inFlight l)[i]? = some false := by
+  simp only [inFlight, List.getElem?_map, hr, Option.map_some, Option.some.injEq]
+  rw [ha]
+  exact c04_matrix k w hm r.c hk r.x alg sigAlg signedBy
+
 /-! ### the tree as found -/
 
 def cxDep : Deployment := { issuer := "https://km".toList, trusted := [⟨1, .rsa⟩] }
@@ -779,6 +812,14 @@ example : accepts .access cxCtx
               (emitCode cxDep ⟨"clientA".toList, "alice".toList, "openid".toList, [], "https://app/cb".toList, [], [], [], []⟩ 900)
               "clientA".toList 950,
              alg := .none, signedBy := none, sigAlg := .none }) = false := by
+  decide
+
+/-- the same session cookie in flight at the session consumer, `VerifyAuthTokenHandler` and the session consumer
+again: honoured, refused, honoured -/
+example : inFlight
+    (let a := cxKey { claims := emitSession cxDep "alice".toList 10 900 57600, alg := .none, signedBy := none, sigAlg := .none }
+     [⟨.session, { cxCtx with required := 2 }, a⟩, ⟨.cliVerify, cxCtx, a⟩, ⟨.session, { cxCtx with required := 2 }, a⟩])
+    = [true, false, true] := by
   decide
 
 end KM.Token
